@@ -4,8 +4,10 @@ import HdVerif.Proofs.Coding
 Objects are pydicom `Code`s and highdicom `CodedConcept`s (`Obj.code` / `Obj.concept`), in any mix.
 `objEq` is Python's `a == b` (dispatch to `Code.__eq__` or to `CodedConcept.__eq__`, which builds
 `Code(self.value, self.scheme_designator, self.meaning, self.scheme_version)` — the argument list is
-REGENERATED from /repo's source, `Gen.eqThisArgs` — and delegates).  `retired` is pydicom's table of
-retired SRT codes (any partial function), `h` Python's string hash (any function).
+REGENERATED from /repo's source, `Gen.eqThisArgs` — and delegates).  pydicom's `Code.__eq__`, `__ne__`,
+`__hash__` are REGENERATED from pydicom's own source as well (`Gen.pydCodeEq`, `Gen.pydEqOtherReads`,
+`Gen.pydNeNegatesEq`, `Gen.pydHashArgs`, `Gen.pydCodeFields`; translated, not trusted).  `retired s v` is
+`snomed_mapping[s].get(v)` (any function), `h` Python's string hash (any function).
 
 `Obj.wf` is what every object made through the public API satisfies (`ctor_wf`, `from_dataset_wf`,
 `from_code_wf`): a `Code` has value, scheme and meaning; a concept has exactly one of the three code
@@ -17,23 +19,23 @@ open HdVerif HdVerif.Gen HdVerif.Coding
 
 /-- `==` never raises on well-formed codes and **is decided by the normalised (value, scheme,
 version) key** — whichever of the two classes stands on whichever side. -/
-theorem eq_decided_by_key (retired : String → Option String) (a b : Obj) (ha : a.wf) (hb : b.wf) :
+theorem eq_decided_by_key (retired : String → String → Option String) (a b : Obj) (ha : a.wf) (hb : b.wf) :
     objEq retired a b = .ok (decide (key retired a = key retired b)) :=
   objEq_key retired a b ha hb
 
 /-- reflexive -/
-theorem eq_refl (retired : String → Option String) (a : Obj) (ha : a.wf) : objEq retired a a = .ok true := by
+theorem eq_refl (retired : String → String → Option String) (a : Obj) (ha : a.wf) : objEq retired a a = .ok true := by
   rw [objEq_key retired a a ha ha]; simp
 
 /-- symmetric: `a == b` and `b == a` give the same answer for every mix of representations -/
-theorem eq_symm (retired : String → Option String) (a b : Obj) (ha : a.wf) (hb : b.wf) :
+theorem eq_symm (retired : String → String → Option String) (a b : Obj) (ha : a.wf) (hb : b.wf) :
     objEq retired a b = objEq retired b a := by
   rw [objEq_key retired a b ha hb, objEq_key retired b a hb ha]
   congr 1
   exact decide_eq_decide.mpr ⟨fun h => h.symm, fun h => h.symm⟩
 
 /-- transitive -/
-theorem eq_trans (retired : String → Option String) (a b c : Obj) (ha : a.wf) (hb : b.wf) (hc : c.wf)
+theorem eq_trans (retired : String → String → Option String) (a b c : Obj) (ha : a.wf) (hb : b.wf) (hc : c.wf)
     (hab : objEq retired a b = .ok true) (hbc : objEq retired b c = .ok true) : objEq retired a c = .ok true := by
   rw [objEq_key retired a b ha hb] at hab
   rw [objEq_key retired b c hb hc] at hbc
@@ -42,7 +44,7 @@ theorem eq_trans (retired : String → Option String) (a b c : Obj) (ha : a.wf) 
   exact hab.trans hbc
 
 /-- the three together: `==` is an equivalence relation on well-formed codes of both classes -/
-theorem eq_equivalence (retired : String → Option String) :
+theorem eq_equivalence (retired : String → String → Option String) :
     (∀ a : Obj, a.wf → objEq retired a a = .ok true) ∧
     (∀ a b : Obj, a.wf → b.wf → objEq retired a b = objEq retired b a) ∧
     (∀ a b c : Obj, a.wf → b.wf → c.wf → objEq retired a b = .ok true → objEq retired b c = .ok true →
@@ -51,7 +53,7 @@ theorem eq_equivalence (retired : String → Option String) :
 
 /-- **never by meaning**: two objects (of either class) that agree in value, scheme and version are
 interchangeable on both sides of `==`, whatever their meanings. -/
-theorem eq_ignores_meaning (retired : String → Option String) (a a' b : Obj) (ha : a.wf) (ha' : a'.wf) (hb : b.wf)
+theorem eq_ignores_meaning (retired : String → String → Option String) (a a' b : Obj) (ha : a.wf) (ha' : a'.wf) (hb : b.wf)
     (hv : specValue a = specValue a') (hs : specScheme a = specScheme a') (hver : specVersion a = specVersion a') :
     objEq retired a b = objEq retired a' b ∧ objEq retired b a = objEq retired b a' := by
   rw [objEq_key retired a b ha hb, objEq_key retired a' b ha' hb, objEq_key retired b a hb ha,
@@ -60,7 +62,7 @@ theorem eq_ignores_meaning (retired : String → Option String) (a a' b : Obj) (
   exact ⟨rfl, rfl⟩
 
 /-- in particular a code equals itself under another meaning and in the other class -/
-theorem eq_across_meaning_and_class (retired : String → Option String) (v s m m' : String) (ver : Option String)
+theorem eq_across_meaning_and_class (retired : String → String → Option String) (v s m m' : String) (ver : Option String)
     (d : DS) (hd : mkConcept v s m' ver = .ok d) :
     objEq retired (.code ⟨some v, some s, some m, ver⟩) (.concept d) = .ok true ∧
     objEq retired (.concept d) (.code ⟨some v, some s, some m, ver⟩) = .ok true := by
@@ -77,14 +79,14 @@ theorem eq_across_meaning_and_class (retired : String → Option String) (v s m 
     simp [hk]
 
 /-- `!=` is the negation of `==` (both classes) -/
-theorem ne_is_negation (retired : String → Option String) (a b : Obj) (ha : a.wf) (hb : b.wf) :
+theorem ne_is_negation (retired : String → String → Option String) (a b : Obj) (ha : a.wf) (hb : b.wf) :
     objNe retired a b = .ok (!decide (key retired a = key retired b)) := by
-  simp [objNe, objEq_key retired a b ha hb, neNegatesEq]
+  cases a <;> simp [objNe, objEq_key retired _ b ha hb, neNegatesEq, pydNeNegatesEq]
 
 /-- retired-scheme aliases are normalised: an SRT code whose value is retired equals its SCT successor
 (same version), whichever classes and meanings are involved. -/
-theorem alias_equal (retired : String → Option String) (a b : Obj) (ha : a.wf) (hb : b.wf) (v w : String)
-    (hr : retired v = some w)
+theorem alias_equal (retired : String → String → Option String) (a b : Obj) (ha : a.wf) (hb : b.wf) (v w : String)
+    (hr : retired "SRT" v = some w)
     (has : specScheme a = some "SRT") (hav : specValue a = some v)
     (hbs : specScheme b = some "SCT") (hbv : specValue b = some w)
     (hver : specVersion a = specVersion b) :
@@ -93,7 +95,7 @@ theorem alias_equal (retired : String → Option String) (a b : Obj) (ha : a.wf)
   simp [key, mapKey, has, hav, hbs, hbv, hr, hver]
 
 /-- without retired codes on either side equality is exactly equality of (value, scheme, version) -/
-theorem eq_iff_same_triple (retired : String → Option String) (a b : Obj) (ha : a.wf) (hb : b.wf)
+theorem eq_iff_same_triple (retired : String → String → Option String) (a b : Obj) (ha : a.wf) (hb : b.wf)
     (hna : specScheme a ≠ some "SRT") (hnb : specScheme b ≠ some "SRT") :
     objEq retired a b = .ok true ↔
       (specValue a = specValue b ∧ specScheme a = specScheme b ∧ specVersion a = specVersion b) := by
@@ -123,7 +125,7 @@ theorem hash_congr (h : String → Int) (a b : Obj) (ha : a.wf) (hb : b.wf)
 
 /-- the Python contract `a == b ⇒ hash(a) == hash(b)` holds whenever no retired alias is involved
 (pydicom itself hashes an SRT alias and its SCT successor differently). -/
-theorem eq_implies_hash_eq (h : String → Int) (retired : String → Option String) (a b : Obj) (ha : a.wf) (hb : b.wf)
+theorem eq_implies_hash_eq (h : String → Int) (retired : String → String → Option String) (a b : Obj) (ha : a.wf) (hb : b.wf)
     (hna : specScheme a ≠ some "SRT") (hnb : specScheme b ≠ some "SRT")
     (he : objEq retired a b = .ok true) : hashOf h a = hashOf h b := by
   obtain ⟨hv, hs, _⟩ := (eq_iff_same_triple retired a b ha hb hna hnb).mp he
@@ -131,7 +133,7 @@ theorem eq_implies_hash_eq (h : String → Int) (retired : String → Option Str
 
 /-- sets and dictionaries treat two representations of the same scheme + value as one element
 exactly when they are equal: `len({a, b}) == 1 ⇔ a == b`. -/
-theorem set_treats_as_one (h : String → Int) (retired : String → Option String) (a b : Obj) (ha : a.wf) (hb : b.wf)
+theorem set_treats_as_one (h : String → Int) (retired : String → String → Option String) (a b : Obj) (ha : a.wf) (hb : b.wf)
     (hs : specScheme a = specScheme b) (hv : specValue a = specValue b) :
     setLen2 h retired a b = .ok (if decide (key retired a = key retired b) then 1 else 2) := by
   obtain ⟨hh, x, hx⟩ := hash_congr h a b ha hb hs hv
@@ -261,7 +263,7 @@ theorem from_dataset_wf (h : Heap) (ref : Nat) (copy : Bool) (cell : Cell) (hc :
 
 /-- `from_code` of a concept returns that very concept; of a `Code` it yields a well-formed concept that
 is equal to the code in both directions and hashes like it. -/
-theorem from_code_spec (retired : String → Option String) (hf : String → Int) (v s m : String) (ver : Option String)
+theorem from_code_spec (retired : String → String → Option String) (hf : String → Int) (v s m : String) (ver : Option String)
     (hm : m.length ≤ 64) :
     (∀ d, fromCode (.concept d) = .ok (.concept d)) ∧
     ∃ d, fromCode (.code ⟨some v, some s, some m, ver⟩) = .ok (.concept d) ∧ (Obj.concept d).wf ∧
@@ -275,7 +277,11 @@ theorem from_code_spec (retired : String → Option String) (hf : String → Int
     have hc : (Obj.code ⟨some v, some s, some m, ver⟩).wf := by simp [Obj.wf]
     obtain ⟨e1, e2⟩ := eq_across_meaning_and_class retired v s m m ver d hd
     obtain ⟨g1, g2, g3, _, g5, _⟩ := value_attribute_roundtrip v s m ver d hd
-    refine ⟨d, by simp [fromCode, hd], hw, e2, e1, ?_⟩
+    have hu : ∀ (c : Code), unpackedArg c "value" = .ok c.value ∧ unpackedArg c "scheme_designator" = .ok c.scheme ∧
+        unpackedArg c "meaning" = .ok c.meaning ∧ unpackedArg c "scheme_version" = .ok c.version := by
+      intro c
+      simp [unpackedArg, ctorParams, pydCodeFields, List.zip, List.lookup, Obj.attr]
+    refine ⟨d, by simp [fromCode, hu, hd], hw, e2, e1, ?_⟩
     have hs : specScheme (.concept d) = some s := by
       have := attr_scheme (.concept d) hw
       simp only [Obj.attr, g5] at this
@@ -286,10 +292,71 @@ theorem from_code_spec (retired : String → Option String) (hf : String → Int
       exact (Except.ok.inj this).symm
     exact (hash_congr hf _ _ hw hc (by rw [hs]; rfl) (by rw [hv]; rfl)).1
 
+/-! ## pydicom's side, and mutation after construction -/
+
+/-- **pydicom's own `Code.__eq__`** (as translated from its source) is equality of the normalised
+(value, scheme, version) keys — an equivalence relation on `Code`s that never looks at the meaning. -/
+theorem pydicom_eq_is_key_equality (retired : String → String → Option String) (s o : PCode) :
+    pydCodeEq retired s o =
+      decide (mapKey (retired "SRT") s.value s.scheme s.version = mapKey (retired "SRT") o.value o.scheme o.version) :=
+  pydCodeEq_spec retired s o
+
+/-- `==` only needs the concept to be *readable* (CodeMeaning and CodingSchemeDesignator present): the
+equivalence holds for every readable object, whether or not it still has exactly one value attribute. -/
+theorem eq_equivalence_readable (retired : String → String → Option String) :
+    (∀ a : Obj, a.readable → objEq retired a a = .ok true) ∧
+    (∀ a b : Obj, a.readable → b.readable → objEq retired a b = objEq retired b a) ∧
+    (∀ a b c : Obj, a.readable → b.readable → c.readable → objEq retired a b = .ok true → objEq retired b c = .ok true →
+      objEq retired a c = .ok true) := by
+  refine ⟨?_, ?_, ?_⟩
+  · intro a ha
+    rw [objEq_key' retired a a ha ha]; simp
+  · intro a b ha hb
+    rw [objEq_key' retired a b ha hb, objEq_key' retired b a hb ha]
+    congr 1
+    exact decide_eq_decide.mpr ⟨fun h => h.symm, fun h => h.symm⟩
+  · intro a b c ha hb hc hab hbc
+    rw [objEq_key' retired a b ha hb] at hab
+    rw [objEq_key' retired b c hb hc] at hbc
+    rw [objEq_key' retired a c ha hc]
+    simp only [Except.ok.injEq, decide_eq_true_eq] at hab hbc ⊢
+    exact hab.trans hbc
+
+/-- **Mutation through the attribute setters cannot break the equivalence.**  Any sequence of attribute
+assignments (to any keyword, any value) and of deletions of keywords other than CodeMeaning /
+CodingSchemeDesignator turns a readable concept into a readable concept — so `eq_equivalence_readable`
+applies to every object reachable that way; if the result also still has exactly one value attribute it
+is well-formed and all hash / set theorems apply too. -/
+theorem mutation_keeps_equivalence (d : DS) (ops : List Op) (hd : (Obj.concept d).readable)
+    (hops : ∀ op ∈ ops, op.keepsReadable) :
+    (Obj.concept (applyOps d ops)).readable ∧
+    (countPresent (applyOps d ops) ["CodeValue", "LongCodeValue", "URNCodeValue"] = 1 → (Obj.concept (applyOps d ops)).wf) := by
+  have hr := applyOps_readable ops d hd hops
+  exact ⟨hr, fun hc => ⟨hc, hr.1, hr.2⟩⟩
+
+/-- Counterexample for the excluded mutation: after `del concept.CodeMeaning` the comparison is no longer
+symmetric — `concept == code` raises AttributeError (`CodedConcept.__eq__` reads `self.meaning`) while
+`code == concept` still answers True (pydicom's `Code.__eq__` never reads the meaning). -/
+theorem counterexample_deleted_meaning :
+    let d : DS := DS.del [("CodingSchemeDesignator", "SCT"), ("CodeMeaning", "Brain"), ("CodeValue", "12738006")] "CodeMeaning"
+    let c : Code := ⟨some "12738006", some "SCT", some "Brain", none⟩
+    objEq (fun _ _ => none) (.concept d) (.code c) = .error .attribute ∧
+    objEq (fun _ _ => none) (.code c) (.concept d) = .ok true := by
+  decide
+
+/-- Breaking the exactly-one invariant by assigning a second value attribute keeps `==` an equivalence
+but the `value` property (and with it equality and hashing) keeps following the lookup order: the newly
+assigned LongCodeValue is ignored while CodeValue is present. -/
+theorem counterexample_second_value_attribute :
+    let d : DS := DS.set [("CodingSchemeDesignator", "SCT"), ("CodeMeaning", "Brain"), ("CodeValue", "12738006")]
+      "LongCodeValue" "1273800612738006X"
+    prop d "value" = .ok (some "12738006") ∧ ¬ (Obj.concept d).wf ∧ (Obj.concept d).readable := by
+  decide
+
 /-! ## non-vacuity: the hypotheses are satisfiable by concrete, non-trivial inputs -/
 
 /-- the SNOMED example used throughout: retired SRT `T-A0100` is SCT `12738006` -/
-def exRetired : String → Option String := fun v => if v = "T-A0100" then some "12738006" else none
+def exRetired : String → String → Option String := fun s v => if s = "SRT" ∧ v = "T-A0100" then some "12738006" else none
 
 example : (Obj.code ⟨some "T-A0100", some "SRT", some "Brain", none⟩).wf := by decide
 example : mkConcept "12738006" "SCT" "Entire brain" none =
